@@ -35,6 +35,11 @@ Next ==
              /\ LET t == Tags({ << e.ok # e.fok, "C16" >>, << e.ok /\ e.fok /\ e.key # e.fkey, "C16" >>, << e.users # e.fusers, "C16" >> })
                 IN IF t = {} THEN TRUE ELSE PrintT(<< "PV", t, sc, l, "probe" >>)
              /\ cnt' = [cnt EXCEPT !.probes = @ + 1] /\ UNCHANGED << sc, npub, lastgood >>
+        [] e.e = "wstart" ->
+             \* histories played through the file system: loader.NewLocalConfig with the real fsnotify watcher; a good first
+             \* document must be accepted (the probes after every rewrite of the file are judged like all other probes)
+             /\ (IF e.good /\ ~e.ok THEN PrintT(<< "PV", {"C16"}, sc, l, "watch" >>) ELSE TRUE)
+             /\ UNCHANGED << sc, npub, lastgood, cnt >>
         [] e.e = "burst" ->
              \* every document of a burst is good: Reload!Load x docs then Reload!Install x docs (PipelineExact:
              \* ninst + Len(chan) = Len(published)); the probes that follow are judged against Fresh(last)
